@@ -563,8 +563,17 @@ pub fn c07(c: &mut Collector, seed: u64, shard: u64, nshards: u64, thorough: boo
     {
         let mut fam = Vec::new();
         let mut frng = Rng::new(mix3(seed, shard, 0x6A7E));
-        workload::double_check_family(&mut frng, if small { 2 } else if thorough { 400 } else { 60 }, &mut fam);
-        workload::evasion_family(&mut frng, if small { 1 } else if thorough { 200 } else { 30 }, &mut fam);
+        if small {
+            // under Miri the generator itself would be interpreted: two fixed double checks instead
+            for fen in ["4r1k1/8/8/8/8/5n2/6P1/4K3 w - - 0 1", "3qkb2/6p1/5N2/8/8/8/8/4R1K1 b - - 0 1"] {
+                if let Ok(p) = Position::from_fen(fen) {
+                    fam.push(workload::Crafted { family: "double-check", pre: p, moves: vec![] });
+                }
+            }
+        } else {
+            workload::double_check_family(&mut frng, if thorough { 400 } else { 60 }, &mut fam);
+            workload::evasion_family(&mut frng, if thorough { 200 } else { 30 }, &mut fam);
+        }
         for cr in &fam {
             let p = &cr.pre;
             let Ok(board) = real::parse(&p.to_fen()) else { continue };
@@ -576,7 +585,7 @@ pub fn c07(c: &mut Collector, seed: u64, shard: u64, nshards: u64, thorough: boo
             c.journal(&format!("gate sweep {}", p.to_fen()));
             let legal: std::collections::HashSet<Mv> = p.legal_moves().into_iter().collect();
             let mut admitted = 0u64;
-            let step = if small { 5 } else { 1 };
+            let step = if small { 7 } else { 1 };
             for from in (0..64u8).step_by(step) {
                 for to in 0..64u8 {
                     let promos: &[Option<Kind>] = if matches!(p.board[from as usize], Some((_, Kind::P))) && (to / 8 == 0 || to / 8 == 7) { &[None, Some(Kind::Q), Some(Kind::N)] } else { &[None] };
@@ -629,8 +638,8 @@ pub fn c07(c: &mut Collector, seed: u64, shard: u64, nshards: u64, thorough: boo
         let r = catch_unwind(AssertUnwindSafe(|| {
             let mut n = 0usize;
             // (under Miri, `small`, a sample of the 20480 moves)
-            for from in (0..64u8).step_by(if small { 9 } else { 1 }) {
-                for to in (0..64u8).step_by(if small { 7 } else { 1 }) {
+            for from in (0..64u8).step_by(if small { 13 } else { 1 }) {
+                for to in (0..64u8).step_by(if small { 11 } else { 1 }) {
                     for pr in [None, Some(Kind::N), Some(Kind::B), Some(Kind::R), Some(Kind::Q)] {
                         let m = mv(Mv { from, to, promo: pr });
                         n += format!("{m}").len() + format!("{m:?}").len();
